@@ -34,7 +34,10 @@ STR_DEFAULTS = [
 OTHER_DEFAULTS = ["True", "False", "None"]
 SIGNED = ["-1", "+1", "-2.5", "+0.5", "-0.0", "-9223372036854775809"]
 NONLIT = ["CONST", "make()", "[]", "()", "{}", "(1, 2)"]
-ANNOS = {"int": "int", "float": "float", "str": "str", "bool": "bool", "none": "int | None"}
+ANNOS = {
+    "int": "int", "float": "float", "str": "str", "bool": "bool", "none": "int | None",
+    "unresolved-name": "'ClassThatIsDefinedNowhere'", "unresolved-member": "'np.ndarray'", "not-a-type": "'1 + 2'",
+}
 
 
 def shapes(maxn: int):
@@ -112,6 +115,10 @@ class SigGen:
                         if isinstance(v, float)
                         else "str"
                     )
+            if self.rng.random() < 0.06:
+                # a written hint the type checker cannot resolve (misspelled forward reference, alias of a library that
+                # is not imported): the parameter list - names, order, defaults - is what it is all the same
+                anno = self.rng.choice(["unresolved-name", "unresolved-member", "not-a-type"])
             params.append({"name": name, "kind": k, "default": default, "anno": anno})
         return params
 
